@@ -215,7 +215,11 @@ func cmdVerify(args []string) int {
 					for _, k := range ks {
 						parts = append(parts, k+"="+o.Model[k])
 					}
-					fmt.Printf("      model: %s\n", strings.Join(parts, " "))
+					if os.Getenv("SONICVC_MODEL") != "" {
+						fmt.Printf("      model:\n        %s\n", strings.Join(parts, "\n        "))
+					} else {
+						fmt.Printf("      model: %s\n", strings.Join(parts, " "))
+					}
 				}
 				if os.Getenv("SONICVC_DEBUG") != "" && o.Result != "unsat" {
 					StrDepth = 14
@@ -594,7 +598,8 @@ func vacuityOK(fr *FuncResult, opt solveOpts) bool {
 		os.WriteFile(f, []byte(text), 0o644)
 		r, _ := raceSolvers(f, 10, false)
 		os.Remove(f)
-		if r.answer == "sat" {
+		if r.answer != "unsat" {
+			// sat: reachable; unknown: not shown contradictory (only a definite unsat is vacuity)
 			return true
 		}
 	}
